@@ -1,5 +1,6 @@
 import QuantemModel.Lemmas.Drift
 import QuantemModel.Lemmas.RegistrationSpectral
+import QuantemModel.Props.C13
 /-!
 C15 — drift-correction resampling geometry (Model/Drift.lean, read at the carrier ℝ).
 Only property theorems and non-vacuity examples live here.
@@ -7,7 +8,8 @@ Only property theorems and non-vacuity examples live here.
 Not proved (measured by the correspondence run only): that `scipy.ndimage.gaussian_filter`
 conserves the weight sum and that `interp1d` on 3/4 points is the interpolating polynomial.
 The correlation theorem (hypothesis `hcc` of `identical_stack_fixed_point`) is discharged in
-`identical_stack_fixed_point_fft` from the shared spectral core.
+`identical_stack_fixed_point_fft` from the shared spectral core, and the strict-patch hypothesis in
+`identical_stack_fixed_point_of_axis_coeffs` (C13's `patch_strict_of_axis_coeffs_np`).
 -/
 namespace QuantemModel.Props.C15
 open QuantemModel QuantemModel.Registration QuantemModel.Drift Finset
@@ -127,6 +129,32 @@ theorem identical_stack_fixed_point_fft {M N : ℕ} (hM : 0 < M) (hN : 0 < N) (x
   refine identical_stack_fixed_point hM hN x hx hpos ms hms up (dft2At M N x) (ccRealDft M N) ?_ hstrict n
   funext s t
   exact Registration.correlation_theorem hM hN x x s t
+
+/-- **Fixed point with every analytic hypothesis discharged**: canvas of at least 3 × 3 pixels, image
+with a unique positive correlation peak and non-zero lowest Fourier coefficients on both axes —
+no correlation-theorem hypothesis, no strict-patch hypothesis, every upsampling factor and every
+positive `max_image_shift`. -/
+theorem identical_stack_fixed_point_of_axis_coeffs {M N : ℕ} (hM : 3 ≤ M) (hN : 3 ≤ N) (x : ℕ → ℕ → ℝ)
+    (hx : UniquePeak M N x) (hpos : 0 < cc M N x x 0 0) (ms : Option ℝ) (hms : ∀ m, ms = some m → 0 < m)
+    (up : ℕ)
+    (h10 : (dft2At M N x 1 0).re ≠ 0 ∨ (dft2At M N x 1 0).im ≠ 0)
+    (h01 : (dft2At M N x 0 1).re ≠ 0 ∨ (dft2At M N x 0 1).im ≠ 0) (n : ℕ) :
+    removeMean (alignShifts (regNp M N up ms (ccRealDft M N)) (List.replicate (n + 1) (dft2At M N x)))
+      = List.replicate (n + 1) ((0 : ℝ), (0 : ℝ)) :=
+  identical_stack_fixed_point_fft (by omega) (by omega) x hx hpos ms hms up
+    (fun h2 => QuantemModel.Props.C13.patch_strict_of_axis_coeffs_np hM hN (by omega) _ h10 h01) n
+
+/-- a concrete witness: a stack of 3 × 3 single-pixel images, `max_image_shift = 32`, any factor -/
+theorem identical_stack_fixed_point_delta (up n : ℕ) :
+    removeMean (alignShifts (regNp 3 3 up (some 32) (ccRealDft 3 3))
+        (List.replicate (n + 1) (dft2At 3 3 QuantemModel.Props.C13.deltaImg)))
+      = List.replicate (n + 1) ((0 : ℝ), (0 : ℝ)) := by
+  refine identical_stack_fixed_point_of_axis_coeffs (by norm_num) (by norm_num) _
+    QuantemModel.Props.C13.deltaImg_uniquePeak ?_ (some 32) (fun m h => by cases h; norm_num) up
+    (Or.inl (by rw [QuantemModel.Props.C13.deltaImg_dft]; norm_num))
+    (Or.inl (by rw [QuantemModel.Props.C13.deltaImg_dft]; norm_num)) n
+  rw [cc_eq]
+  simp [Finset.sum_range_succ, QuantemModel.Props.C13.deltaImg, wrap]
 
 /-! ### non-vacuity -/
 
